@@ -471,6 +471,7 @@ def main(pid, tier=None, replay=None):
     setup_import_path()
     ctx = Ctx(pid, tier, seed)
     _generated_snapshot = {}
+    _generated_written = {}
     if str(REPO) != '/repo':
         for path in (LEAN / 'AbacusVerif' / 'Generated').glob('*.lean'):
             try:
@@ -514,6 +515,14 @@ def main(pid, tier=None, replay=None):
                 mod.extract(ctx)
             except Exception as e:
                 ctx.tie('extract', ''.join(traceback.format_exception_only(type(e), e)).strip() + '\n' + traceback.format_exc()[-1500:])
+        if str(REPO) != '/repo':
+            for path, before in _generated_snapshot.items():
+                try:
+                    now = path.read_text()
+                    if now != before:
+                        _generated_written[path] = now
+                except OSError:
+                    pass
         # 2. proofs
         lean_obligations(ctx, ctx.modules, ctx.theorems)
         # 3. correspondence + oracle
@@ -598,10 +607,9 @@ def main(pid, tier=None, replay=None):
             for path, before in _generated_snapshot.items():
                 try:
                     now = path.read_text() if path.exists() else None
-                    if now != before:
-                        if before is None:
-                            path.unlink()
-                        else:
-                            path.write_text(before)
+                    wrote = _generated_written.get(path)
+                    # undo only what THIS run wrote (and nobody has rewritten since)
+                    if wrote is not None and now == wrote and now != before:
+                        path.write_text(before)
                 except OSError:
                     pass
